@@ -259,7 +259,17 @@ func (g *gen) file(maxRules int) gFile {
 // mutateRule changes the parsed content of a rule (never its kind).
 func (g *gen) mutateRule(ru *gRule) string {
 	r := g.r
-	switch r.Intn(7) {
+	// weights: expr 2, labels 3, for 1, annotations 2, control comment 1, name 1
+	c := r.Intn(10)
+	switch c {
+	case 7:
+		c = 2
+	case 8:
+		c = 2
+	case 9:
+		c = 4
+	}
+	switch c {
 	case 0, 1:
 		old := ru.Expr
 		for ru.Expr == old {
@@ -324,7 +334,10 @@ func (g *gen) mutateMap(m *[][2]string, keys []string, what string) string {
 			missing = append(missing, k)
 		}
 	}
-	c := r.Intn(3)
+	c := r.Intn(4) // 0 value, 1 and 3 delete, 2 add
+	if c == 3 {
+		c = 1
+	}
 	if len(cur) == 0 || (c == 2 && len(missing) > 0) {
 		if len(missing) == 0 {
 			c = 1
